@@ -76,10 +76,10 @@ func (e *Engine) scanCorpusChecks(id, tier string) []fdResult {
 	if tier == "thorough" {
 		os.Setenv("GOVC_DEEP", "1")
 	}
-	out := runPkgReplayFiles(e, "scanner", map[string]string{"zz_govc_replay_test.go": replayScannerSrc, "zz_govc_scancorpus_test.go": replayScanCorpusSrc},
+	out := runPkgReplayFiles(e, "scanner", map[string]string{"zz_govc_replay_test.go": replayScannerSrc, "zz_govc_scancorpus_test.go": replayScanCorpusSrc, "zz_govc_gen_test.go": genFor("scanner")},
 		"TestGovcScanCorpus", "C12/C13 monitor on the real scanner over the corpus:")
 	return []fdResult{{Name: "scanner.Scanner/bounded/corpus-lexeme-monitor#1", Props: []string{id},
-		Goal: "BOUNDED (every document of /repo/testdata, every prefix of those up to 800 bytes; thorough: 6000 bytes and every single-byte deletion / 15 substitutions per byte of those up to 400 bytes): the scanner fails with an error index inside the file or yields lexemes inside the file, in text order, not overlapping, well-bracketed per directive; only the language's keywords are accepted, each followed by a separator (bounded sample, not a proof)",
+		Goal: "BOUNDED (every document of /repo/testdata and 200 generated documents, every prefix of those up to 800 bytes, every keyword followed by every byte value; thorough: 6000 bytes and every single-byte deletion / 15 substitutions per byte of those up to 400 bytes): the scanner fails with an error index inside the file or yields lexemes inside the file, in text order, not overlapping, well-bracketed per directive; only the language's keywords are accepted, each followed by a separator (bounded sample, not a proof)",
 		OK:   strings.Contains(out, "DONE tried=") && !strings.Contains(out, "REPRODUCED input"), Detail: out}}
 }
 
@@ -132,7 +132,7 @@ func (e *Engine) corpusChecks(id, tier string) []fdResult {
 		"C10": {"kit.NewJApiFromFile/bounded/corpus-paste-expansion#1", "replacing every PASTE of a corpus document by the re-indented body of its MACRO and deleting the MACRO blocks gives the same catalog bytes; undefined and pasted cyclic macros are errors"},
 		"C19": {"kit.NewJApiFromFile/bounded/corpus-banned-kinds#1", "for every accepted corpus document and each of the 31 directive kinds: banning a kind that occurs is rejected with the not-allowed error on an occurrence; banning a kind that does not occur gives the same catalog bytes"},
 	}
-	goals["C14"] = [2]string{"kit.NewJapi/bounded/include-arrangements#1", "24 INCLUDE arrangements on disk: parameters with '..', '.', an absolute path, a backslash or nothing are refused at the INCLUDE although the file they name exists; a missing file and a directory are errors at the INCLUDE; cycles not through the root are recursion errors; several files, one file several times and names relative to the including file are accepted and resolved against the right directory"}
+	goals["C14"] = [2]string{"kit.NewJapi/bounded/include-arrangements#1", "52 INCLUDE arrangements on disk (INCLUDE in 11 positions where a directive may start - root, URL, method, response, Request, inside their parentheses, after a Description text, in a MACRO body - with an existing file and with a refused parameter; parameters with '..', '.', an absolute path, a backslash or nothing are refused at the INCLUDE although the file they name exists; a missing file and a directory are errors at the INCLUDE; cycles not through the root are recursion errors; several files, one file several times and names relative to the including file are accepted and resolved against the right directory)"}
 	g, ok := goals[id]
 	if !ok {
 		return nil
